@@ -299,16 +299,36 @@ class Inliner:
             ast.fix_missing_locations(s)
         return res or [ast.copy_location(ast.Pass(), stmt)]
 
+    @staticmethod
+    def _as_single_expression(body: list[ast.stmt]) -> ast.expr | None:
+        """`return e`  or a chain of guard returns `if c: return a` .. `return b` (each branch a single return) as one expression."""
+        if not body:
+            return None
+        s0 = body[0]
+        if isinstance(s0, ast.Return) and s0.value is not None and len(body) == 1:
+            return s0.value
+        if isinstance(s0, ast.If) and len(s0.body) == 1 and isinstance(s0.body[0], ast.Return) and s0.body[0].value is not None \
+                and not any(isinstance(n, ast.NamedExpr) for n in ast.walk(s0.test)):
+            rest = s0.orelse if s0.orelse else body[1:]
+            if s0.orelse and body[1:]:
+                return None
+            other = Inliner._as_single_expression(list(rest))
+            if other is None:
+                return None
+            return ast.IfExp(test=s0.test, body=s0.body[0].value, orelse=other)
+        return None
+
     # ---------------------------------------------------------------- expression-level
     def _expr_inline(self, host: ast.FunctionDef, call: ast.Call, h: ast.FunctionDef, is_method: bool) -> ast.AST | None:
         body = _doc_stripped(h.body)
-        if not (len(body) == 1 and isinstance(body[0], ast.Return) and body[0].value is not None):
+        ret = self._as_single_expression(body)
+        if ret is None:
             return None
         try:
             bound = self._bind(h, call, is_method)
         except NotInlinable:
             return None
-        e = copy.deepcopy(body[0].value)
+        e = copy.deepcopy(ret)
         stored = _stored(e)  # comprehension targets / walrus inside the expression
         if stored & (_all_names(host) | set(bound)):
             return None
@@ -379,7 +399,7 @@ class Inliner:
                 h, _ = resolve(c)
                 if h is not None:
                     body = _doc_stripped(h.body)
-                    if not (len(body) == 1 and isinstance(body[0], ast.Return)):
+                    if Inliner._as_single_expression(body) is None:
                         needs = True
         if not needs:
             return [s]
@@ -401,7 +421,7 @@ class Inliner:
                 h, _ = resolve(e)
                 if h is not None and not any(isinstance(a, ast.Starred) for a in e.args):
                     body = _doc_stripped(h.body)
-                    if not (len(body) == 1 and isinstance(body[0], ast.Return)):  # single-return helpers are inlined as expressions
+                    if Inliner._as_single_expression(body) is None:  # helpers that are one expression are inlined as expressions
                         return e, True
             kids: list[ast.AST]
             if isinstance(e, ast.Compare):
